@@ -23,6 +23,9 @@ MISC = "pyxel/observation/misc.py"
 FD = "pyxel/calibration/fitting_datatree.py"
 OD = "pyxel/observation/observation_dask.py"
 OBS = "pyxel/observation/observation.py"
+BOUNDED = {
+    r'.*': 'processors with ten groups of one model (two models and a namesake in two of them), two requested settings; symbolic contents',
+}      # unit-name / obligation-name patterns -> the family these obligations are proved for
 TRUSTED = ["copy.deepcopy of objects without __deepcopy__ (Detector, DetectionPipeline, ModelFunction, Arguments, containers, arrays) yields a graph sharing no mutable "
            "object with the original", "'equals a standalone exposure' then follows from determinism given the seed (C04) — not proved here",
            "scenario: one populated group with two models; buckets and detector memory hold arrays"]
